@@ -47,6 +47,11 @@ def handle (tb : Tables) (c impl : T) : String :=
      | some true => if d51 then "repaired D51" else "ok"
      | some false => if d51 then "dev D51" else "mismatch spec-bad (obs true)"
      | none => "bad-op")
+  | .node "c08l" [_], .node "obs" [same, refAbstract] =>
+    -- a Go type bound after it was first seen (fixed table): the model is the property — once bound, the object is
+    -- resolved as its concrete type, exactly as on a root that was bound before its first request (and that reference
+    -- itself names the concrete type, not the interface)
+    if same == T.ofBool true && refAbstract == T.ofBool false then "ok" else "mismatch spec-bad (obs true false)"
   | .node "c08b" [os, ord, evs], .node "l" outs =>
     -- a history of values reaching object / union / interface positions of one cold reflection root
     (match (do pure ((← optMap decObj (← os.asList)), (← optMap T.asStr (← ord.asList)), (← optMap decEv (← evs.asList)))) with
